@@ -67,6 +67,14 @@ pub fn gen(prop: &str, scen: &str, _k: u64, seed: u64, tier: &str) -> Case {
             case.set("value", *r_f.pick(&[0i64, 1, 2, 0x7F, 0xFF, 40, 41, 224, 225, 226, any1, any1, any2, any2]));
             case.set("value64", *r_f.pick(&[0i64, 1, 1 << 32, 1 << 33, 1 << 40, i64::MAX, -1, 1 << 62]));
         }
+        "hostile.grammar" => {
+            // headers written from the formats' grammar with every token free: odd VLI encodings,
+            // filter lists that end at any token, sizes that lie, CRC right or wrong
+            case.fmt = (*r_opt.pick(&["xz", "xz", "xz", "lzip", "lzma"])).into();
+            case.opt.dict = 4096;
+            case.set("g_seed", (r_f.next_u64() >> 1) as i64);
+            case.input = simcore::case::InputSpec::new("random", r_in.urange(0, 300), r_in.next_u64());
+        }
         "hostile.params" => {
             let len = biased_len(&mut r_in, 3000, &[100]);
             case.fmt = (*r_opt.pick(&["lzma", "lzma", "lzma2"])).into();
@@ -185,6 +193,10 @@ fn build_input(case: &Case, data: &[u8], ctx: &mut Ctx) -> Option<Vec<u8>> {
                 ctx.fire("crc_recomputed", 1);
             }
             Some(s)
+        }
+        "hostile.grammar" => {
+            ctx.fire("grammar_header", 1);
+            Some(grammar_input(case, data))
         }
         "hostile.fields" => {
             let mut s = match prepare_stream(case, data) {
@@ -409,7 +421,7 @@ fn declared_dict(case: &Case, bytes: &[u8]) -> u64 {
         return (p as u64).max(4096);
     }
     match case.fmt.as_str() {
-        "lzma" if case.knob("hdr") != 0 || case.scen == "hostile.random" || case.scen == "hostile.fields" => parsers::lzma_header(bytes).map(|h| (h.dict as u64).max(4096)).unwrap_or(4096),
+        "lzma" if case.knob("hdr") != 0 || case.scen == "hostile.random" || case.scen == "hostile.fields" || case.scen == "hostile.grammar" => parsers::lzma_header(bytes).map(|h| (h.dict as u64).max(4096)).unwrap_or(4096),
         "lzip" => {
             // every member may declare its own size; take the largest plausible one
             let mut best = 4096u64;
@@ -427,6 +439,11 @@ fn declared_dict(case: &Case, bytes: &[u8]) -> u64 {
         "xz" => {
             // any 0x21 0x01 <prop> triple could be an LZMA2 filter declaration
             let mut best = 4096u64;
+            if case.scen == "hostile.grammar" {
+                // ids and sizes may be encoded non-minimally, so the bytes cannot be scanned: the
+                // generator itself says what its block headers declare
+                return grammar_input_decl(case, &[]).1.max(4096);
+            }
             for w in bytes.windows(3) {
                 if w[0] == 0x21 && w[1] == 0x01 && w[2] <= 40 {
                     let d = if w[2] == 40 { 0xFFFF_FFFFu64 } else { ((2 | (w[2] as u64 & 1)) << (w[2] / 2 + 11)) as u64 };
@@ -441,6 +458,10 @@ fn declared_dict(case: &Case, bytes: &[u8]) -> u64 {
 
 fn run(case: &Case, bytes: Vec<u8>, ctx: &mut Ctx) -> Option<Violation> {
     ctx.bytes("hostile", &bytes);
+    if let Ok(p) = std::env::var("VERIF_DUMP_HOSTILE") {
+        // debugging aid for replays: the hostile byte string itself
+        let _ = std::fs::write(p, &bytes);
+    }
     ctx.nontrivial = !bytes.is_empty();
     let comp = reader_component(case);
     let len = bytes.len();
@@ -568,4 +589,169 @@ fn hostile_reader<'a>(case: &Case, src: SimSource) -> std::io::Result<Box<dyn Re
 fn unused() {
     let _ = bcj2::x86dense;
     let _ = IoPolicy::default();
+}
+
+/// A VLI of `v` in `extra` more bytes than necessary (continuation bytes with zero payload).
+fn odd_vli(v: u64, extra: usize, out: &mut Vec<u8>) {
+    let mut tmp = Vec::new();
+    parsers::write_vli(v, &mut tmp);
+    if extra > 0 {
+        let l = tmp.len();
+        tmp[l - 1] |= 0x80;
+        for _ in 1..extra {
+            tmp.push(0x80);
+        }
+        tmp.push(0);
+    }
+    out.extend_from_slice(&tmp);
+}
+
+/// Header bytes derived from the grammar of the container formats rather than from a valid file.
+fn grammar_input(case: &Case, data: &[u8]) -> Vec<u8> {
+    grammar_input_decl(case, data).0
+}
+
+/// The bytes and, for XZ, the sum of the dictionary sizes the generated block headers declare
+/// (the reader accepts LZMA2 at any position of a filter chain, so one header can declare several).
+fn grammar_input_decl(case: &Case, data: &[u8]) -> (Vec<u8>, u64) {
+    let mut rng = Rng::new(case.knob("g_seed") as u64);
+    let mut out = Vec::new();
+    let mut declared: u64 = 0;
+    match case.fmt.as_str() {
+        "xz" => {
+            // stream header (valid, random check type)
+            let check = *rng.pick(&[0u8, 1, 4, 10, 2, 15]);
+            out.extend_from_slice(&[0xFD, b'7', b'z', b'X', b'Z', 0, 0, check]);
+            let crc = parsers::crc32(&out[6..8]);
+            out.extend_from_slice(&crc.to_le_bytes());
+            let blocks = rng.range(1, 2);
+            for _ in 0..blocks {
+                // block header content (everything between the size byte and the CRC32)
+                let mut c = Vec::new();
+                let nf = rng.range(1, 4) as u8;
+                let has_c = rng.pct(40);
+                let has_u = rng.pct(40);
+                let mut flags = (nf - 1) & 3;
+                if has_c {
+                    flags |= 0x40;
+                }
+                if has_u {
+                    flags |= 0x80;
+                }
+                if rng.pct(5) {
+                    flags |= 0x3C & rng.next_u64() as u8;
+                }
+                c.push(flags);
+                if has_c {
+                    let v = *rng.pick(&[0u64, 1, 100, 1 << 20, (1 << 63) - 1]);
+                    odd_vli(v, if rng.pct(40) { rng.urange(1, 4) } else { 0 }, &mut c);
+                }
+                if has_u {
+                    let v = *rng.pick(&[0u64, 1, 100, 1 << 20, (1 << 63) - 1]);
+                    odd_vli(v, if rng.pct(40) { rng.urange(1, 4) } else { 0 }, &mut c);
+                }
+                for fi in 0..nf {
+                    let last = fi + 1 == nf;
+                    let id: u64 = if last && rng.pct(85) { 0x21 } else { *rng.pick(&[0x21u64, 3, 4, 5, 6, 7, 8, 9, 10, 11, 0, 1, 0x4000_0000_0000_0000]) };
+                    odd_vli(id, if rng.pct(15) { rng.urange(1, 3) } else { 0 }, &mut c);
+                    let natural: u64 = match id {
+                        0x21 | 3 => 1,
+                        4..=11 => *rng.pick(&[0u64, 4]),
+                        _ => rng.range(0, 3),
+                    };
+                    let psize = if rng.pct(85) { natural } else { *rng.pick(&[0u64, 1, 2, 4, 5, 200, 1 << 40]) };
+                    odd_vli(psize, if rng.pct(15) { rng.urange(1, 3) } else { 0 }, &mut c);
+                    let have = if rng.pct(90) { psize.min(16) as usize } else { rng.urange(0, 5) };
+                    for k in 0..have {
+                        let b = if id == 0x21 { *rng.pick(&[0u8, 1, 18, 40, 41, 255]) } else { rng.next_u64() as u8 };
+                        if id == 0x21 && k == 0 && b <= 40 {
+                            declared = declared.saturating_add(if b == 40 { 0xFFFF_FFFF } else { (2 | (b as u64 & 1)) << (b / 2 + 11) });
+                        }
+                        c.push(b);
+                    }
+                }
+                // the header ends at an arbitrary token or byte: possible content lengths are 3 mod 4
+                let natural = c.len();
+                let len = match rng.below(4) {
+                    0 => {
+                        // cut: the largest valid length not above a random point
+                        let k = rng.urange(0, natural);
+                        if k >= 3 { k - (k + 1) % 4 } else { 3 }
+                    }
+                    _ => natural + (3usize.wrapping_sub(natural) % 4 + 4) % 4,
+                };
+                let mut len = len.max(3);
+                if (len + 1) % 4 != 0 {
+                    len += 4 - (len + 1) % 4;
+                }
+                c.resize(len, 0);
+                if rng.pct(15) && natural < len {
+                    // non-zero header padding
+                    c[len - 1] = 1;
+                }
+                let size_byte = ((len + 1 + 4) / 4 - 1) as u8;
+                let start = out.len();
+                out.push(if rng.pct(92) { size_byte } else { rng.next_u64() as u8 });
+                out.extend_from_slice(&c);
+                let crc = parsers::crc32(&out[start..]);
+                let crc = if rng.pct(70) { crc } else { crc ^ 1 };
+                out.extend_from_slice(&crc.to_le_bytes());
+                // some payload: an LZMA2 end marker, random bytes or a valid tiny chunk
+                match rng.below(3) {
+                    0 => out.push(0),
+                    1 => out.extend_from_slice(&data[..data.len().min(40)]),
+                    _ => out.extend_from_slice(&[1, 0, 2, b'a', b'b', b'c', 0]),
+                }
+                while out.len() % 4 != 0 {
+                    out.push(0);
+                }
+                out.extend(std::iter::repeat(0u8).take(parsers::xz_check_len(check)));
+            }
+            // index with free record count / VLIs, CRC right or wrong, then a footer
+            let istart = out.len();
+            out.push(0);
+            let nrec = if rng.pct(70) { blocks } else { *rng.pick(&[0u64, 1, 3, 1000, 1 << 40, (1 << 63) - 1]) };
+            odd_vli(nrec, if rng.pct(20) { rng.urange(1, 8) } else { 0 }, &mut out);
+            for _ in 0..nrec.min(3) {
+                odd_vli(*rng.pick(&[0u64, 1, 24, 1 << 30, (1 << 63) - 1]), if rng.pct(20) { rng.urange(1, 8) } else { 0 }, &mut out);
+                odd_vli(*rng.pick(&[0u64, 3, 1 << 30, (1 << 63) - 1]), if rng.pct(20) { rng.urange(1, 8) } else { 0 }, &mut out);
+            }
+            while (out.len() - istart) % 4 != 0 {
+                out.push(0);
+            }
+            let crc = parsers::crc32(&out[istart..]);
+            out.extend_from_slice(&(if rng.pct(70) { crc } else { !crc }).to_le_bytes());
+            let isize = out.len() - istart;
+            let mut footer = Vec::new();
+            footer.extend_from_slice(&((isize / 4).saturating_sub(1) as u32).to_le_bytes());
+            footer.extend_from_slice(&[0, check]);
+            let fcrc = parsers::crc32(&footer);
+            out.extend_from_slice(&fcrc.to_le_bytes());
+            out.extend_from_slice(&footer);
+            out.extend_from_slice(b"YZ");
+            if rng.pct(30) {
+                let cut = rng.urange(12, out.len());
+                out.truncate(cut);
+            }
+        }
+        "lzip" => {
+            out.extend_from_slice(b"LZIP");
+            out.push(*rng.pick(&[1u8, 1, 1, 0, 2, 255]));
+            out.push(if rng.pct(70) { *rng.pick(&[12u8, 13, 0x2C, 29, 0xFD]) } else { rng.next_u64() as u8 });
+            out.extend_from_slice(&data[..data.len().min(rng.urange(0, 60))]);
+            // a trailer with free fields
+            out.extend_from_slice(&(rng.next_u64() as u32).to_le_bytes());
+            out.extend_from_slice(&(*rng.pick(&[0u64, 1, 1 << 40, u64::MAX])).to_le_bytes());
+            let total = out.len() as u64 + 8;
+            out.extend_from_slice(&(*rng.pick(&[total, total, 0, 1, total + 1, u64::MAX])).to_le_bytes());
+        }
+        _ => {
+            // .lzma: properties byte, dictionary size, size - all free
+            out.push(if rng.pct(60) { *rng.pick(&[0x5Du8, 0, 224, 225, 255]) } else { rng.next_u64() as u8 });
+            out.extend_from_slice(&(*rng.pick(&[0u32, 1, 4095, 4096, 1 << 16, 1 << 26, u32::MAX])).to_le_bytes());
+            out.extend_from_slice(&(*rng.pick(&[0u64, 1, 100, 1 << 33, u64::MAX - 1, u64::MAX])).to_le_bytes());
+            out.extend_from_slice(&data[..data.len().min(rng.urange(0, 80))]);
+        }
+    }
+    (out, declared)
 }
